@@ -46,6 +46,8 @@ def rand_ev(rng, grid=8, base=T0):
 # histories whose instants straddle the Unix epoch (events that start and end before 1970, that reach across it, that
 # start on it): instants are signed microsecond counts, nothing in the property stops at 1970
 EPOCH_BASE = -4 * SEC
+# ... and histories dated after today (2149: the library only warns about years after 2100)
+FUTURE_BASE = 5_680_000_000_000_000
 
 
 class HistGen:
@@ -55,7 +57,8 @@ class HistGen:
         self.rng = rng
         self.buckets = (BUCKETS_LIKE if rng.random() < 0.15 else BUCKETS)[:nbuckets]
         self.grid = grid
-        self.base = EPOCH_BASE if rng.random() < 0.12 else T0
+        r0 = rng.random()
+        self.base = EPOCH_BASE if r0 < 0.12 else FUTURE_BASE if r0 < 0.18 else T0
         self.ops = []
         self.nrefs = 0
         self.live = {b: [] for b in self.buckets}
